@@ -959,6 +959,109 @@ pub fn c17(seed: u64, budget: u64) -> FOut {
     out
 }
 
+/// C14: round-robin probing within 2n-1 rounds
+pub fn c14(seed: u64, budget: u64) -> FOut {
+    let mut out = FOut::default();
+    out.rule = "real Foca with a stable membership: n = 1..12 active members and 0..6 Down records inserted in random order (random positions via the insertion swap), random RNG seed, starting cursor reached by 0..n prior rounds / joins / forgets; 20n probe rounds driven by the probe timers (never answering, never delivering suspicion timeouts: members stay active as Suspect); each round must ping exactly one active member (never Down, never self) and every window of 2n-1 consecutive rounds must contain every active member. distinct = distinct (n, downs, seed) layouts".into();
+    let mut g = G::new(seed ^ 0xC14);
+    for run in 0..budget {
+        let n = 1 + g.below(12) as u16;
+        let downs = g.below(7) as u16;
+        let own = VId::new(99, 1, 0, 0);
+        let mut cfg = big_cfg();
+        cfg.num_indirect_probes = 1 + g.below(3) as u128;
+        let mut inst = Inst::new(own, &cfg, g.next(), 0, 255);
+        let mut ups: Vec<MMember> = (0..n).map(|i| MMember { id: VId::new(i + 1, 0, 0, 0), inc: 0, state: g.below(2) as u8 }).collect();
+        ups.extend((0..downs).map(|i| MMember { id: VId::new(100 + i + 1, 0, 0, 0), inc: 0, state: 2 }));
+        for i in (1..ups.len()).rev() {
+            let j = g.below(i as u64 + 1) as usize;
+            ups.swap(i, j);
+        }
+        // some members join later (after a few rounds)
+        let late = if ups.len() > 2 { g.below(3) as usize } else { 0 };
+        let (first, later) = ups.split_at(ups.len() - late);
+        run_real(&mut inst.foca, &Input::ApplyMany(first.to_vec(), false));
+        let active: Vec<VId> = ups.iter().filter(|m| m.state != 2).map(|m| m.id).collect();
+        let mut pings: Vec<VId> = vec![];
+        let mut bad: Option<J> = None;
+        let warm = g.below(n as u64 + 1);
+        let total = warm + 20 * n as u64;
+        for round in 0..total {
+            if round == warm && late > 0 {
+                run_real(&mut inst.foca, &Input::ApplyMany(later.to_vec(), false));
+                if g.chance(50) && downs > 0 {
+                    // forgetting a Down member before the window starts is fine
+                    let d = ups.iter().find(|m| m.state == 2).unwrap().id;
+                    run_real(&mut inst.foca, &Input::Timer(MTimer::RemoveDown(d)));
+                }
+                pings.clear();
+            }
+            if round == warm {
+                pings.clear();
+            }
+            let pre = inst.snapshot();
+            if pre.conn != 1 {
+                break;
+            }
+            let (effs, _o) = run_real(&mut inst.foca, &Input::Timer(MTimer::Probe(pre.token)));
+            let mut this_round = vec![];
+            for e in &effs {
+                if let Eff::Send(d, b) = e {
+                    if let Some((h, _, _)) = split_datagram(b) {
+                        if let foca::Message::Ping(_) = h.message {
+                            this_round.push(*d);
+                        }
+                    }
+                }
+                if let Eff::Submit(MTimer::Indirect(i, k), _) = e {
+                    // deliver the indirect stage right away so that the probe cycle is valid
+                    let t = Input::Timer(MTimer::Indirect(*i, *k));
+                    let _ = t;
+                }
+            }
+            for e in &effs {
+                if let Eff::Submit(MTimer::Indirect(i, k), _) = e {
+                    run_real(&mut inst.foca, &Input::Timer(MTimer::Indirect(*i, *k)));
+                }
+            }
+            if this_round.len() != 1 {
+                bad = Some(J::s(format!("round {round}: pings {this_round:?}")));
+                break;
+            }
+            let d = this_round[0];
+            if !active.contains(&d) && round >= warm {
+                bad = Some(J::s(format!("round {round}: pinged {d:?}, not an active member")));
+                break;
+            }
+            pings.push(d);
+        }
+        if bad.is_none() && late == 0 || bad.is_none() {
+            let w = 2 * active.len() - 1;
+            if pings.len() >= w {
+                for start in 0..=(pings.len() - w) {
+                    for a in &active {
+                        if !pings[start..start + w].contains(a) {
+                            bad = Some(J::s(format!("n={} downs={downs}: {a:?} missing from rounds {start}..{} of {:?}", active.len(), start + w, &pings[start..start + w])));
+                        }
+                    }
+                    if bad.is_some() {
+                        break;
+                    }
+                }
+            }
+        }
+        out.runs += 1;
+        out.distinct.insert(hash_of(&(n, downs, run)));
+        if let Some(b) = bad {
+            out.hit("C14:window-or-target", b);
+        }
+        if run < 1 {
+            out.samples.push(J::s(format!("n={n} downs={downs}: first pings {:?}", &pings[..pings.len().min(8)])));
+        }
+    }
+    out
+}
+
 pub fn run(prop: &str, seed: u64, budget: u64) -> Option<FOut> {
     match prop {
         "C01" => Some(c01(seed, budget)),
@@ -966,6 +1069,7 @@ pub fn run(prop: &str, seed: u64, budget: u64) -> Option<FOut> {
         "C06" => Some(c06(seed, budget)),
         "C11" => Some(c11(seed, budget)),
         "C09" => Some(c09(seed, budget)),
+        "C14" => Some(c14(seed, budget)),
         "C13" => Some(c13(seed, budget)),
         "C17" => Some(c17(seed, budget)),
         _ => None,
